@@ -61,7 +61,22 @@ def strategy(tier):
             case["limit"] = 300
         else:
             case["limit"] = 400 if tier == "quick" else 1500
-        case["params_extra"] = {"obj_lower_limit": draw(st.sampled_from([-1e3, -1e3, -1e10]))}
+        lim = draw(st.sampled_from([-1e3, -1e3, -1e10, -1.0, -30.0]))
+        case["params_extra"] = {"obj_lower_limit": lim}
+        if lim > -100.0 and fam in ("nlp", "qp") and "magnified" not in case["spec"].get("family", "") and draw(st.booleans()):
+            # a moderate objective limit on a problem translated far from the origin: the flow may dip below the limit at
+            # points that are still infeasible while |x| is large -- "feasible to tolerance" is an absolute statement
+            spec = draw(S.magnified(case["spec"]))
+            case["spec"] = spec
+            case["start"] = draw(S.start_point(spec))
+            case["scaling"] = draw(S.scaling_dict_strategy(spec, kinds=("none", "none", "custom", "gradjac")))
+        sck = (case.get("scaling") or {}).get("kind", "none")
+        if fam in ("nlp", "qp", "infeasible") and sck in ("none", "custom") and draw(st.integers(0, 3)) == 0:
+            # a limit the start already undercuts: Unbounded may come back at once, but only if the start is feasible
+            f0 = float(Ref(case["spec"]).f(S.x0_array(case["spec"], case["start"])))
+            ow = int(case["scaling"].get("ow", 0)) if sck == "custom" else 0
+            if np.isfinite(f0):
+                case["params_extra"] = {"obj_lower_limit": float(np.ldexp(f0, ow)) + draw(st.sampled_from([0.5, 8.0]))}
         return case
 
     return _s()
